@@ -1444,8 +1444,9 @@ func (self *BinaryServerProtocol) ProcessCommad(command protocol.ICommand) error
 				self.stream.protocol = self
 			}
 			self.totalCommandCount += serverProtocol.totalCommandCount
-			serverProtocol.UnInitLockCommand()
-			serverProtocol.closed = true
+			serverProtocol.totalCommandCount = 0
+			serverProtocol.stream = nil
+			_ = serverProtocol.Close()
 			return err
 
 		case protocol.COMMAND_PING:
@@ -2411,8 +2412,9 @@ func (self *TextServerProtocol) ProcessCommad(command protocol.ICommand) error {
 				self.stream.protocol = self
 			}
 			self.totalCommandCount += serverProtocol.totalCommandCount
-			serverProtocol.UnInitLockCommand()
-			serverProtocol.closed = true
+			serverProtocol.totalCommandCount = 0
+			serverProtocol.stream = nil
+			_ = serverProtocol.Close()
 			return err
 
 		case protocol.COMMAND_PING:
